@@ -324,7 +324,7 @@ func (a *unitAgg) merge(w *workerResult) {
 
 func workerEnv(extra ...string) []string {
 	env := os.Environ()
-	env = append(env, "GODEBUG=asynctimerchan=0", "TZ=UTC")
+	env = append(env, "GODEBUG=asynctimerchan=0,randseednop=0", "TZ=UTC")
 	return append(env, extra...)
 }
 
